@@ -181,10 +181,16 @@ class Translate(BaseTranslateFilter, TranslatableFilter):
                 message=(left.value,),
             )
 
-        if isinstance(_filter.args[0], PositionalArgument):
-            _context: Expression | None = _filter.args[0].value
-        else:
-            _context = None
+        # The message context is the first positional argument, wherever it appears
+        # among keyword arguments.
+        _context: Expression | None = next(
+            (
+                arg.value
+                for arg in _filter.args
+                if isinstance(arg, PositionalArgument)
+            ),
+            None,
+        )
 
         plural: Expression | None = None
         for arg in _filter.args:
